@@ -60,6 +60,7 @@ var registry = map[string]runner{
 	"C05/generated":    w05.Run,
 	"C05/cli":          w05.CLI,
 	"C19/stress":       w19.Run,
+	"C19/coldstart":    w19.ColdStart,
 	"C18/history":      w18.Run,
 	"C08/deviate":      w08.Run,
 	"C04/tree":         wtree.Run,
@@ -71,6 +72,7 @@ var registry = map[string]runner{
 	"C09/tree":         wtree.Run,
 	"C12/tree":         wtree.Run,
 	"C17/tree":         wtree.Run,
+	"C17/revisions":    w13.Revisions,
 }
 
 // replayers re-run one concrete case of a family whose cases are not addressed by index.
